@@ -193,6 +193,22 @@ Proof.
   rewrite Forall_forall in Hrows. apply Hm, Hrows, Hin.
 Qed.
 
+
+Ltac dom_step :=
+  match goal with
+  | |- _ /\ _ => split
+  | |- _ <> _ => discriminate
+  | |- Forall _ [] => constructor
+  | |- Forall _ (_ :: _) => constructor
+  | |- NoDup (map _ _) => vm_compute
+  | |- NoDup [] => constructor
+  | |- NoDup (_ :: _) => constructor
+  | |- ~ In _ _ => cbn; intuition discriminate
+  | |- @eq nat _ _ => reflexivity
+  | |- fits _ => vm_compute; discriminate
+  | |- no_cr _ => reflexivity
+  end.
+
 Section Agree.
 (* ---- the two libraries that are not modelled *)
 Variables (X J : Type).
@@ -335,4 +351,119 @@ Definition formats_agree_full : Prop :=
   forall wb, Forall (fun p => in_property_domain (snd p)) wb ->
   rmap (wb_map lift_table) (via_csv wb) = via_xlsx wb /\ via_json wb = via_csv wb.
 
+Local Open Scope N_scope.
+
+(* witness 1 (finding "all-empty row"): one sheet "s", header "a", one row with an empty
+   cell.  CSV keeps the row, _sanitize drops it. *)
+Definition wb_empty_row : workbook (table str str) := [([115], mkT [[97]] [[[]]])].
+(* witness 2 (finding "sheet without rows"): one sheet "s", header "a", no rows.  CSV and
+   XLSX keep the header, convert + JSONSheetReader return a table without headers. *)
+Definition wb_header_only : workbook (table str str) := [([115], mkT [[97]] [])].
+
+Lemma wb_empty_row_in_domain : Forall (fun p => in_property_domain (snd p)) wb_empty_row.
+Proof.
+  constructor; [|constructor]. unfold in_property_domain, rect, cells_fit, cr_free. cbn [hdr rws package_rows snd].
+  repeat dom_step.
+Qed.
+
+Lemma wb_header_only_in_domain : Forall (fun p => in_property_domain (snd p)) wb_header_only.
+Proof.
+  constructor; [|constructor]. unfold in_property_domain, rect, cells_fit, cr_free. cbn [hdr rws package_rows snd].
+  repeat dom_step.
+Qed.
+
+Theorem formats_agree_empty_row_refuted :
+  via_csv wb_empty_row = Ok wb_empty_row /\
+  via_xlsx wb_empty_row = Ok [([115], mkT [Some [97]] [])] /\
+  rmap (wb_map lift_table) (via_csv wb_empty_row) <> via_xlsx wb_empty_row.
+Proof.
+  assert (E1 : via_csv wb_empty_row = Ok wb_empty_row) by (unfold via_csv; destruct translated; vm_compute; reflexivity).
+  assert (E2 : via_xlsx wb_empty_row = Ok [([115], mkT [Some [97]] [])]).
+  { unfold via_xlsx. rewrite xl_roundtrip. vm_compute. reflexivity. }
+  split; [exact E1|]. split; [exact E2|]. rewrite E1, E2. vm_compute. discriminate.
+Qed.
+
+Theorem formats_agree_header_only_refuted :
+  via_csv wb_header_only = Ok wb_header_only /\
+  via_json wb_header_only = Ok [([115], empty_table)] /\
+  via_json wb_header_only <> via_csv wb_header_only.
+Proof.
+  assert (E1 : via_csv wb_header_only = Ok wb_header_only) by (unfold via_csv; destruct translated; vm_compute; reflexivity).
+  assert (E2 : via_json wb_header_only = Ok [([115], empty_table)]).
+  { unfold via_json. rewrite E1, json_roundtrip. vm_compute. reflexivity. }
+  split; [exact E1|]. split; [exact E2|]. rewrite E1, E2. vm_compute. discriminate.
+Qed.
+
+Theorem formats_agree_full_refuted : ~ formats_agree_full.
+Proof.
+  intros H. destruct (H wb_empty_row wb_empty_row_in_domain) as [E _].
+  destruct formats_agree_empty_row_refuted as [_ [_ Hne]]. exact (Hne E).
+Qed.
+
+(* the second witness alone refutes it too (a different defect) *)
+Theorem formats_agree_full_refuted_by_header_only :
+  ~ (forall wb, Forall (fun p => in_property_domain (snd p)) wb -> via_json wb = via_csv wb).
+Proof.
+  intros H. destruct formats_agree_header_only_refuted as [_ [_ Hne]].
+  exact (Hne (H wb_header_only wb_header_only_in_domain)).
+Qed.
+
 End Agree.
+
+(* ================================================================== non-vacuity *)
+
+(* the two library hypotheses are satisfiable (a file format that stores exactly what openpyxl
+   hands back / the parsed JSON), and a workbook with commas, quotes, LF and non-ASCII cells, an
+   empty cell and two sheets is in the domain of [formats_agree] *)
+Local Open Scope N_scope.
+
+Definition ex_wb : workbook (table str str) :=
+  [ ([115; 49], mkT [[97]; [98; 32; 99]; [233]]
+                    [[[120; 44; 121]; []; [34; 104; 105; 34; 10; 19990]]; [[]; [49]; []]]);
+    ([102; 108; 111; 119; 32; 97], mkT [[105; 100]] [[[128512]]]) ].
+
+Lemma ex_wb_ok : wb_ok ex_wb /\ wb_cr_free ex_wb.
+Proof.
+  unfold wb_ok, wb_cr_free, ex_wb. split.
+  - repeat (constructor; [|try constructor]); unfold sheet_ok, rect, cells_fit, no_empty_row;
+      cbn [hdr rws package_rows snd]; repeat dom_step.
+    + exists [120; 44; 121]. split; [left; reflexivity|discriminate].
+    + exists [49]. split; [right; left; reflexivity|discriminate].
+    + exists [128512]. split; [left; reflexivity|discriminate].
+  - repeat (constructor; [|try constructor]); unfold cr_free; cbn [hdr rws package_rows snd]; repeat dom_step.
+Qed.
+
+Example formats_agree_nonvacuous :
+  let xl_write := wb_map xl_grid in
+  let xl_load := fun x : workbook (list (list xcell)) => x in
+  let dumps := fun b : workbook jsheet => b in
+  let loads := fun b : workbook jsheet => b in
+  (forall wb, xl_load (xl_write wb) = wb_map xl_grid wb) /\ (forall b, loads (dumps b) = b) /\
+  wb_ok ex_wb /\ wb_cr_free ex_wb /\
+  via_csv load_csv_translated ex_wb = Ok ex_wb /\
+  via_xlsx _ xl_write xl_load ex_wb = Ok (wb_map lift_table ex_wb) /\
+  via_json _ dumps loads load_csv_translated ex_wb = Ok ex_wb.
+Proof.
+  cbv zeta. split; [reflexivity|]. split; [reflexivity|].
+  destruct ex_wb_ok as [H1 H2]. split; [exact H1|]. split; [exact H2|].
+  apply (formats_agree _ _ _ _ _ _); auto.
+Qed.
+
+(* the same with CR LF / CR inside cells: the three readers agree on the normalised workbook *)
+Definition ex_wb_cr : workbook (table str str) :=
+  [ ([115], mkT [[97]; [98]] [[[120; 13; 10; 121]; [13]]; [[]; [122; 13]]]) ].
+
+Example formats_agree_normalised_nonvacuous :
+  load_csv_translated = true /\
+  Forall (fun p => sheet_ok_tr (snd p)) ex_wb_cr /\ wb_map tr_table ex_wb_cr <> ex_wb_cr /\
+  via_csv load_csv_translated ex_wb_cr = Ok (wb_map tr_table ex_wb_cr).
+Proof.
+  assert (Ht : load_csv_translated = true) by reflexivity.
+  assert (Hok : Forall (fun p => sheet_ok_tr (snd p)) ex_wb_cr).
+  { unfold ex_wb_cr. constructor; [|constructor]. unfold sheet_ok_tr, rect, cells_fit, no_empty_row.
+    cbn [hdr rws package_rows snd]. repeat dom_step.
+    - exists [120; 13; 10; 121]. split; [left; reflexivity|discriminate].
+    - exists [122; 13]. split; [right; left; reflexivity|discriminate]. }
+  split; [exact Ht|]. split; [exact Hok|]. split; [vm_compute; discriminate|].
+  apply (formats_agree_normalised _ _ (wb_map xl_grid) (fun x => x) (fun b => b) (fun b => b)); auto.
+Qed.
